@@ -5,3 +5,4 @@ import MatidModel.Chirality
 import MatidModel.Primitive
 import MatidModel.WyckoffParams
 import MatidModel.Select
+import MatidModel.Geom
